@@ -58,6 +58,51 @@ func HarnessC12Len(digits, pay int) {
 	verifC12(in, 0)
 }
 
+// HarnessC12Cmd: the other branches of the request decoder. A well-formed MGET / MSET / DEL / EVAL
+// request in which ONE field - the argument count, one bulk length, the numkeys argument of EVAL, a key -
+// is replaced by `wd` arbitrary bytes (`which` numbers the fields from the left, -1: every field in turn; the '*', '$' and CRLF
+// markers stay). Same obligations as HarnessC12.
+//   kind 0: MGET a b   1: MSET a x b y   2: DEL a b   3: EVAL s 1 k   4: EVAL s 2 k j x
+func HarnessC12Cmd(kind, which, wd, cut int) {
+	var args []string
+	switch kind {
+	case 0:
+		args = []string{"mget", "a", "b"}
+	case 1:
+		args = []string{"mset", "a", "x", "b", "y"}
+	case 2:
+		args = []string{"del", "a", "b"}
+	case 3:
+		args = []string{"eval", "s", "1", "k"}
+	case 4:
+		args = []string{"eval", "s", "2", "k", "j", "x"}
+	}
+	// fields: 0 = count, then (length, payload) per argument
+	fields := []string{vItoa(len(args))}
+	for _, a := range args {
+		fields = append(fields, vItoa(len(a)), a)
+	}
+	if which < 0 {
+		which = verifrt.Choice("field_replaced", len(fields))
+	}
+	var in []byte
+	for i, f := range fields {
+		switch {
+		case i == 0:
+			in = append(in, '*')
+		case i%2 == 1:
+			in = append(in, '$')
+		}
+		if i == which {
+			in = append(in, verifrt.Bytes("field", wd)...)
+		} else {
+			in = append(in, f...)
+		}
+		in = append(in, '\r', '\n')
+	}
+	verifC12(in, cut)
+}
+
 func verifC12(in []byte, cut int) {
 	L := len(in)
 	w, _ := verifWorld2(core.VerifDefaultOptions())
@@ -138,6 +183,7 @@ func anyBytes(w *core.VerifWorld) bool {
 }
 
 func init() {
+	verifrt.Register("HarnessC12Cmd", func(p []int64) { HarnessC12Cmd(int(p[0]), int(p[1]), int(p[2]), int(p[3])) })
 	verifrt.Register("HarnessC12Len", func(p []int64) { HarnessC12Len(int(p[0]), int(p[1])) })
 	verifrt.Register("HarnessC12", func(p []int64) { HarnessC12(int(p[0]), int(p[1])) })
 	verifrt.Register("HarnessC12Shape", func(p []int64) { HarnessC12Shape(int(p[0]), int(p[1]), int(p[2]), int(p[3]), int(p[4])) })
